@@ -9,10 +9,10 @@ VARIABLES tid
 Trace == ndJsonDeserialize(IOEnv.TRACE_FILE)
 Report(kind, t, clauses) == PrintT("@@" \o ToJson([kind |-> kind, tid |-> t, clauses |-> clauses]))
 SameAnswer(py, js) == py.t = js.t /\ (py.t = "exc" \/ py.v = js.v)
-\* An input outside the documented forms (r.opt: decimal comma, a convenience the JavaScript side adds) is not in the
-\* shared domain unless both sides answer: either side may refuse it (an exception, or NaN on the JavaScript side).
+\* An input outside the documented forms (r.opt: decimal comma) is in the shared domain when the Python reference answers
+\* it; where Python refuses it, the JavaScript side may offer it as a convenience of its own (or answer NaN).
 Refuses(x) == x.t \in {"exc", "nonfinite"}
-InSharedDomain(r) == "opt" \notin DOMAIN r \/ ~r.opt \/ (~Refuses(r.py) /\ ~Refuses(r.js))
+InSharedDomain(r) == "opt" \notin DOMAIN r \/ ~r.opt \/ ~Refuses(r.py)
 Check(t) == LET r == Trace[t] IN ~InSharedDomain(r) \/ SameAnswer(r.py, r.js) \/
             Report("viol", t, {IF r.py.t = "exc" THEN "js_returns_where_python_refuses"
                                ELSE IF r.js.t = "exc" THEN "js_refuses_where_python_returns"
